@@ -153,7 +153,19 @@ fn compare(ctx: &mut Ctx, family: &str, idx: u64, b: &[u8], env: &Env, obs: &Pkt
                             return;
                         }
                     }
-                    Err(_) => ctx.count("rdata_not_exact_(latitude)"),
+                    Err(_) => {
+                        // RDLENGTH differs from the natural size of the typed content: the library may reject the message or ignore a
+                        // surplus. What it may not do is hand back more content than the RDLENGTH window holds (for the types without
+                        // names inside RDATA the value's own encoding says how many bytes it was read from)
+                        let nameless = schema(wr.rtype).map(|sc| !sc.iter().any(|k| matches!(k, K::Name(_)))).unwrap_or(false);
+                        let natural = if nameless && matches!(&lr.rd, Rd::Fields(_)) { encode_rdata_plain(lr.rtype, &lr.rd).len() } else { 0 };
+                        if natural > wr.rdlen {
+                            ctx.violation("rdata-from-rdlength", &format!("rdata-read-beyond-rdlength:{}", type_name(wr.rtype)),
+                                format!("section {} record {}: RDLENGTH is {} but the value returned ({}) takes {} bytes: it was read from beyond the record", s, i, wr.rdlen, short_rd(&lr.rd), natural), case());
+                            return;
+                        }
+                        ctx.count("rdata_not_exact_(latitude)")
+                    }
                 }
             }
         }
